@@ -4,17 +4,17 @@ CHECK_DEADLOCK FALSE
 CONSTANTS
   Threads = {1, 2, 3}
   Ids = {1, 2}
-  OpOf <- Ops_TwoStoresRm
+  OpOf <- Ops_Crash
   CHUNK = 2
   MAXCELLS = 4
   FIXED_CREATE = TRUE
   COMMIT_FIRST = FALSE
-  MAY_MOVE = TRUE
-  CRASHES = 1
+  MAY_MOVE = FALSE
+  CRASHES = 0
 INVARIANT TypeOK
 INVARIANT DurableInv
 INVARIANT HeaderInv
 INVARIANT ReaderInv
 INVARIANT OneWinner
 PROPERTY CommitAtomic
-
+INVARIANT RefsValid
